@@ -428,6 +428,21 @@ func execC15(t *testing.T, w *core.World, p *run.Plan, r *run.Result) {
 	}
 	si, err := wallet.GenerateStateInit(pub, id.ver, id.netPtr(), id.wc, id.subPtr())
 	handedOut := si
+	// ... and the one the Wallet object hands out (a pointer)
+	walletInit, wiErr := wl.StateInit()
+	if wiErr != nil || walletInit == nil {
+		w.Violate("C15.A2", "C15.A2|Wallet.StateInit|"+fam, fmt.Sprintf("%s: Wallet.StateInit err=%v", id, wiErr))
+	} else {
+		cell := boc.NewCell()
+		if e := tlb.Marshal(cell, *walletInit); e != nil {
+			w.Violate("C15.A2", "C15.A2|Wallet.StateInit|"+fam, fmt.Sprintf("%s: marshal err=%v", id, e))
+		} else if h := fromLib(cell); true {
+			h.compute()
+			if h.hash != [32]byte(want.Address) {
+				w.Violate("C15.A2", "C15.A2|Wallet.StateInit|"+fam, fmt.Sprintf("%s: hash(Wallet.StateInit)=%x, want %x", id, h.hash, want.Address))
+			}
+		}
+	}
 	if err != nil {
 		w.Violate("C15.A2", "C15.A2|GenerateStateInit|"+fam, fmt.Sprintf("%s: GenerateStateInit err=%v", id, err))
 	} else {
@@ -492,6 +507,16 @@ func execC15(t *testing.T, w *core.World, p *run.Plan, r *run.Result) {
 		}
 	}
 	// a state-init that was handed out still is this wallet's initial state after other wallets were derived
+	if wiErr == nil && walletInit != nil {
+		cell := boc.NewCell()
+		if e := tlb.Marshal(cell, *walletInit); e == nil {
+			h := fromLib(cell)
+			h.compute()
+			if h.hash != [32]byte(want.Address) {
+				w.Violate("C15.A2", "C15.A2|state-init-changed-after-return|"+fam, fmt.Sprintf("%s: the state-init returned by Wallet.StateInit hashed to the wallet's address when it was returned and hashes to %x after addresses of other wallets were generated", id, h.hash))
+			}
+		}
+	}
 	if err == nil {
 		cell := boc.NewCell()
 		if e := tlb.Marshal(cell, handedOut); e == nil {
